@@ -164,7 +164,10 @@ class Statement(object):
         """
         if not self.code_pkg.address.is_none():
             return self.code_pkg.address.int
-        self.code_pkg.address = NumericValue(address)
+        try:
+            self.code_pkg.address = NumericValue(address)
+        except ValueTypeError:
+            raise TranslationError("statement lies beyond address $FFFF", self)
         return self.code_pkg.address.int
 
     def resolve_symbols(self, symbol_table):
